@@ -172,6 +172,44 @@ Theorem C14_emit_by_names_splits_like_grouping :
 Proof. exact emit_by_names_is_grouping. Qed.
 Print Assumptions C14_emit_by_names_splits_like_grouping.
 
+(* ---- multi-key for-loops for ((k1,...,kn), v in m): break (return, error) from any key level ends the whole loop *)
+Theorem C14_multikey_exit_propagates_through_every_level :
+  forall fns rec k k2 ks vn key sub more body st s1 o st2,
+    a_set_at_scope k (VStr key) (stk st) = Some s1 ->
+    rec (TMulti (k2 :: ks) vn sub body) (set_stk s1 st) = Ok (RO o, st2) -> o <> ONormal ->
+    step fns rec (TMulti (k :: k2 :: ks) vn ((key, VMap sub) :: more) body) st = Ok (RO o, st2).
+Proof. exact multikey_exit_propagates. Qed.
+Print Assumptions C14_multikey_exit_propagates_through_every_level.
+
+Theorem C14_multikey_break_ends_whole_loop :
+  forall fns rec ks vn e body st m st1 st2,
+    rec (TEval e) st = Ok (RV (VMap m), st1) ->
+    rec (TMulti ks vn m body) (push_frame st1) = Ok (RO OBreak, st2) ->
+    step fns rec (TExec (SForMulti ks vn e body)) st = Ok (RO ONormal, pop_frame st2).
+Proof. exact multikey_break_ends_loop. Qed.
+Print Assumptions C14_multikey_break_ends_whole_loop.
+
+(* ---- by value at function RETURN: the value a call (or any sub-expression) produced is the value its consumer gets,
+   whatever the later sub-expressions of the same expression do to the storage it was read from (st2 is arbitrary) *)
+Theorem C14_returned_value_unaffected_by_later_mutation :
+  forall fns rec e es st v st1 vs st2,
+    rec (TEval e) st = Ok (RV v, st1) -> rec (TEvals es) st1 = Ok (RVs vs, st2) ->
+    step fns rec (TEvals (e :: es)) st = Ok (RVs (v :: vs), st2).
+Proof. exact earlier_value_is_a_snapshot. Qed.
+Print Assumptions C14_returned_value_unaffected_by_later_mutation.
+
+Theorem C14_argument_unaffected_by_later_sibling_arguments :
+  forall fns rec soft e es t x ps st v st1 vs st2,
+    rec (TEval e) st = Ok (RV v, st1) -> gate t v = true -> rec (TArgs soft es ps) st1 = Ok (RVs vs, st2) ->
+    step fns rec (TArgs soft (e :: es) ((t, x) :: ps)) st = Ok (RVs (v :: vs), st2).
+Proof. exact earlier_argument_is_a_snapshot. Qed.
+Print Assumptions C14_argument_unaffected_by_later_sibling_arguments.
+
+Theorem C14_return_snapshot_instance :
+  run_prog documented return_snapshot_witness false 60 [] = Ok [OLine (B "1/bumped"); OLine (B "101")].
+Proof. exact return_snapshot_example. Qed.
+Print Assumptions C14_return_snapshot_instance.
+
 (* non-vacuity: concrete inputs meeting the hypotheses, and a recursive program the interpreter really runs *)
 Example C14_nonvacuous :
   two_level [(B "pan", VMap [(B "x", VInt 1); (B "y", VInt 2)]); (B "eks", VMap [(B "x", VInt 3)])] = true
